@@ -3,3 +3,10 @@ open Ascii
 type string =
 | EmptyString
 | String of ascii * string
+
+(** val append : string -> string -> string **)
+
+let rec append s1 s2 =
+  match s1 with
+  | EmptyString -> s2
+  | String (c, s1') -> String (c, (append s1' s2))
